@@ -222,7 +222,13 @@ def c12_contradictory_strict_pair(v):
         return False
     # the input holds a pair of lines that bound one (scaled) expression from incompatible sides BY CONSTRUCTION
     # (A<c with A>c -> 'A != c';  A>c with A<=c -> both dropped; with a third line on the same expression either may show)
-    return r.get('hostile') == 'contradiction' or r.get('mirrored_pair') in ('contradictory_strict', 'contradictory_complement')
+    # the recorded mechanism, quantitatively: a strict pair shows as a '!=' line; a complement pair vanishes without leaving an equality behind
+    eq_in, eq_out = r.get('equalities_in'), r.get('equalities_out') or []
+    if r.get('hostile') == 'contradiction' or r.get('mirrored_pair') == 'contradictory_strict':
+        return r.get('merged_to_not_equal') is True
+    if r.get('mirrored_pair') == 'contradictory_complement':
+        return r.get('merged_to_not_equal') is False and all(n == (eq_in or 0) for n in eq_out)
+    return False
 
 
 @predicate
@@ -266,3 +272,25 @@ def c12_solve_rounding_residue_pivot(v):
     r = v['record']
     return (r.get('clause', '').startswith('same:') and r.get('solve') is True and (r.get('max_number_in_result') or 0) >= 1e10
             and (r.get('max_number_in_input') or 1e99) <= 1e3)
+
+
+@predicate
+def c12_zero_divisor_case_dropped(v):
+    """every witness satisfies the input, satisfies no returned case, and sits exactly on the zero of a variable the cases divide by"""
+    import re
+    r = v['record']
+    if not r.get('clause', '').startswith('same:') or not r.get('exact_arithmetic'):
+        return False
+    w = r.get('witnesses') or []
+    cases = r.get('cases') or []
+    if not w or len(cases) < 2:
+        return False
+    variables = (v.get('desc') or {}).get('variables')
+    for x in w:
+        pt = x.get('x') or []
+        names = variables if isinstance(variables, list) else ['%s%d' % (variables or 'x', i) for i in range(len(pt))]
+        divisors = set(m for c in cases for m in re.findall(r'/\s*\(?\s*([A-Za-z_][A-Za-z_0-9]*)', c))
+        zero_div = [n for n, val in zip(names, pt) if n in divisors and val == 0]
+        if not (x.get('input_holds') is True and not any(x.get('cases_hold') or [True]) and zero_div):
+            return False
+    return True
